@@ -72,8 +72,26 @@ type solverSpec struct {
 	argv func(file string, secs int) []string
 }
 
+// solverSeed is the base random seed (VERIF_SEED); an `unsat` under any seed is a proof, so a quick `unknown`
+// is retried under other seeds before the obligation counts as not discharged (see solve).
+var solverSeed = 0
+
+func z3Seeded(seed int) solverSpec {
+	name := "z3new"
+	if seed != solverSeed {
+		name = fmt.Sprintf("z3new-seed%d", seed)
+	}
+	return solverSpec{name, func(f string, s int) []string {
+		a := []string{"z3-new", fmt.Sprintf("-T:%d", s)}
+		if seed != 0 {
+			a = append(a, fmt.Sprintf("smt.random_seed=%d", seed), fmt.Sprintf("sat.random_seed=%d", seed))
+		}
+		return append(a, f)
+	}}
+}
+
 var solvers = []solverSpec{
-	{"z3new", func(f string, s int) []string { return []string{"z3-new", fmt.Sprintf("-T:%d", s), f} }},
+	{"z3new", func(f string, s int) []string { return z3Seeded(solverSeed).argv(f, s) }},
 	{"cvc5", func(f string, s int) []string { return []string{"cvc5", fmt.Sprintf("--tlimit=%d", s*1000), f} }},
 }
 
@@ -152,6 +170,15 @@ func solve(file string, secs int, all bool) (Result, []Result) {
 	r := runSolver(solvers[0], file, secs)
 	if r.Status == "unsat" || r.Status == "sat" {
 		return r, []Result{r}
+	}
+	if r.Status == "unknown" && r.Seconds < 5 {
+		// the solver gave up early (incomplete quantifier instantiation): such answers depend on the search order
+		for _, d := range []int{1, 2} {
+			x := runSolver(z3Seeded(solverSeed+d), file, secs)
+			if x.Status == "unsat" {
+				return x, []Result{r, x}
+			}
+		}
 	}
 	ch := make(chan Result, len(solvers))
 	for _, sp := range solvers[1:] {
